@@ -14,7 +14,7 @@ claim("C12", "Coq proof (XOR-checksum and CRC-32 injectivity per byte, block acc
       "Proof: for every payload, byte position and replacement value the CAB checksum changes, hence an accepted checksummed block is rejected after any one-byte change of payload or size fields, and a changed stored checksum is either 0 (unchecked, data intact) or rejected (4 theorems, closed); the OAB per-block CRC-32 over the regenerated table changes for every one-byte change of a block's data (C12_oab_crc_single_byte). The model's checksum is compared with the C cabd_checksum on generated buffers, and corrupted cabinets (incl. relaxed-then-strict parameter histories) are run through the real extract path. The OAB per-block CRC is modelled in Model/Oab.v (C06: table = polynomial, chunking independence, CHECKSUM on mismatch in the container theorem's negation is by correspondence).",
       NOTE, "4/C12")
 claim("C01", "Coq proof (generic buffered-vs-ideal refinement instantiated for the MSZIP/LZX/Quantum ports; CAB block reader = honest stream; stored-folder extraction exact) + model/C differential + generated cabinets and sets through the real API",
-      "Proof: for each ported CAB decoder, every input, every output-length hint and every buffer size > 0, the buffered run on an honest host equals the run on the ideal byte source; the CAB block reader (cabd_sys_read / cabd_sys_read_block with checksums, reserves, Quantum trailer) is an honest stream over the concatenated block payloads, so MSZIP / Quantum / uncompressed decoding behind it equals the ideal run for every DECOMPBUF; extract() of any member of an uncompressed folder returns exactly its bytes. Model/Cab.v (open + extract sessions for one cabinet, strict and salvage) is run against the C library on intact and damaged cabinets. LZX behind the block reader (late output-length hint), cabinet sets and FIXMSZIP recovery are covered by correspondence / oracle only. The ports are compared with the C decoders on generated and damaged streams; generated cabinets/sets (all methods, reserves, split points, parameter settings) are listed and extracted through the real API and compared with the generator. Round-trip theorems for deflate/LZX/Quantum encoders are not proved (payload correctness rests on the correspondence); default stdio system: not modelled.",
+      "Proof: for each ported CAB decoder, every input, every output-length hint and every buffer size > 0, the buffered run on an honest host equals the run on the ideal byte source; the CAB block reader (cabd_sys_read / cabd_sys_read_block with checksums, reserves, Quantum trailer) is an honest stream over the concatenated block payloads, so MSZIP / Quantum / uncompressed decoding behind it equals the ideal run for every DECOMPBUF; extract() of any member of an uncompressed folder returns exactly its bytes; open() reads back header, folder and file tables exactly. Model/Cab.v (open + extract sessions for one cabinet, strict and salvage) is run against the C library on intact and damaged cabinets. LZX behind the block reader (late output-length hint), cabinet sets and FIXMSZIP recovery are covered by correspondence / oracle only. The ports are compared with the C decoders on generated and damaged streams; generated cabinets/sets (all methods, reserves, split points, parameter settings) are listed and extracted through the real API and compared with the generator. Round-trip theorems for deflate/LZX/Quantum encoders are not proved (payload correctness rests on the correspondence); default stdio system: not modelled.",
       NOTE, "4/C01")
 claim("C05", "Coq proof (LZSS round trip for all token streams and dialects; callback port refines the pure decoder for every buffer size) + model/C differential",
       "Proof: lzss_roundtrip, lzss_impl_refines_spec, lzss_end_to_end (closed). Tie: the pure decoder vs the C lzss_decompress on encoder output, damaged and random streams at several buffer sizes; SZDD/KWAJ files built by the generator are opened/extracted through the real API and compared with the generator's header fields and plaintext (KWAJ LZH / MSZIP payloads by correspondence only).",
